@@ -732,6 +732,47 @@ def c11(run):
                     run.violations += 1
                 break
     run.traces += nh * nproc * 2
+    # the same for the runtime itself: histories of the command-language app in which one step wakes several
+    # parked commands at once (case-wide channels), executed in separate processes; the recorded traces (every
+    # returned batch in order, the view after every call) must be identical byte for byte
+    cp = run.path("det_dsl.cases")
+    lib.gen_cases(cp, run.seed + 21, 250 if run.quick else 2500, "core,bridge_bin", "mixed", 2, 24,
+                  env={"GEN_PGCH": "0.35", "GEN_PCH": "0.05"})
+    # hand-written: six commands parked on six case-wide channels, a seventh pokes them all in one step
+    waiter = lambda i: {"k": "async", "id": 1, "tid": 2, "code": [
+        {"op": "grecv", "g": i, "dst": 1}, {"op": "emit", "tag": 10 + i, "src": {"r": 1}},
+        {"op": "req", "tag": 20 + i, "src": {"r": 1}, "dst": 2}, {"op": "emit", "tag": 30 + i, "src": {"r": 2}}]}
+    poker = {"k": "async", "id": 1, "tid": 2, "code": [{"op": "gsend", "g": i, "src": {"c": i}} for i in range(1, 7)]}
+    with open(cp, "a") as f:
+        for rep_ in range(8):
+            f.write(json.dumps({"name": f"wake-six-{rep_}", "host": "core" if rep_ % 2 == 0 else "bridge_bin",
+                                "progs": [waiter(i) for i in range(1, 7)] + [poker], "follow": {}, "legacy": False,
+                                "steps": [{"a": "run", "p": i} for i in range(7)] + [{"a": "noop"}]}) + "\n")
+    traces = []
+    for k in range(3 if run.quick else 5):
+        tp = run.path(f"det_dsl{k}.trace")
+        lib.run_harness(cp, tp)
+        traces.append(open(tp).read().splitlines())
+    for k in range(1, len(traces)):
+        for ln, (a, b) in enumerate(zip(traces[0], traces[k])):
+            if a != b:
+                run.violations += 1
+                lines = traces[0]
+                s_ = max(j for j in range(ln + 1) if '"e":"case"' in lines[j])
+                p = os.path.join(lib.WORK, "replay", f"{run.prop}-{run.violations}.json")
+                with open(p, "w") as f:
+                    e_ = next((j for j in range(ln, len(lines)) if '"e":"end"' in lines[j]), None)
+                    json.dump({"kind": "det-trace", "property": run.prop, "case": json.loads(lines[s_]),
+                               "steps": json.loads(lines[e_])["steps"] if e_ is not None else [{"a": "run", "p": 0}],
+                               "line_in_case": ln - s_ + 1, "process_a": json.loads(a), "process_b": json.loads(b)}, f, indent=1)
+                print(f"VIOLATION property={run.prop} replay={p}")
+                print("  two processes executing one history differ: " + a[:200] + "  ||  " + b[:200])
+                break
+        if run.violations:
+            break
+    run.traces += 250 * len(traces)
+    run.stages.append({"stage": "determinism[command-language app, separate processes]", "kind": "differential",
+                       "histories": 250 if run.quick else 2500, "processes": len(traces)})
     run.sample({"history": hist[0]})
     run.stages.append({"stage": "determinism differential", "kind": "differential-replay", "histories": nh,
                        "processes": nproc, "runs_per_process": 2, "histories_with_divergence": diffs})
